@@ -45,6 +45,9 @@ pub struct SimCase {
     /// watch segment sizes after every step (C23) and drain at the end (C22)
     #[serde(default = "yes")]
     pub data_plane: bool,
+    /// node that plays the metadata (Raft) leader; 0 = node 1
+    #[serde(default)]
+    pub raft_leader: u8,
 }
 fn yes() -> bool {
     true
@@ -224,9 +227,11 @@ pub fn run_case(case: &SimCase, base: &std::path::Path) -> SimResult {
         }
         nodes.push(Node { id, ctrl: c });
     }
+    let rl = if case.raft_leader >= 1 && (case.raft_leader as u64) <= n { case.raft_leader as u64 } else { 1 };
+    octopii::sim::with(|c| c.leader = Some(rl));
     // node addresses through the metadata leader
     {
-        let c = nodes[0].ctrl.clone();
+        let c = nodes[(rl - 1) as usize].ctrl.clone();
         let ids: Vec<u64> = nodes.iter().map(|n| n.id).collect();
         let done = Rc::new(RefCell::new(false));
         let d2 = done.clone();
